@@ -40,6 +40,6 @@ func noLoopsBelowStep(cx *Ctx, r *ev.Report, prop string) *rules.DAGResult {
 	}
 	r.Analysed["interface_call_sites_below_step"] = inv
 	r.Analysed["external_callees_below_step"] = d.Externals
-	r.AddFloor("functions_below_step", len(d.Funcs), 60)
+	r.AddFloor("functions_below_step", len(d.Funcs), 20)
 	return d
 }
